@@ -77,3 +77,21 @@ impl core::convert::From<std::string::FromUtf8Error> for anyhow::Error {
     #[verifier::external_body]
     fn from(e: std::string::FromUtf8Error) -> anyhow::Error { unimplemented!() }
 }
+
+/// (String::is_empty: vstd's specification speaks about the char view) a string has no chars iff it has no bytes
+#[verifier::external_body]
+pub broadcast proof fn axiom_string_empty(s: String) ensures #[trigger] s@.len() == 0 <==> sbytes(s).len() == 0 {}
+pub mod io {
+    use vstd::prelude::*;
+    #[verifier::external_body]
+    pub struct Error { _e: u8 }
+    pub enum ErrorKind { InvalidInput, AddrNotAvailable, Other }
+    impl Error {
+        #[verifier::external_body]
+        pub fn new(kind: ErrorKind, msg: &str) -> Error { unimplemented!() }
+    }
+}
+impl core::convert::From<io::Error> for anyhow::Error {
+    #[verifier::external_body]
+    fn from(e: io::Error) -> anyhow::Error { unimplemented!() }
+}
